@@ -8,6 +8,7 @@ import (
 	"github.com/glebziz/fs_db"
 	"github.com/glebziz/fs_db/internal/model"
 	"github.com/glebziz/fs_db/internal/utils/ptr"
+	"github.com/glebziz/fs_db/internal/verifhook"
 )
 
 func (u *UseCase) Get(ctx context.Context, key string) (io.ReadCloser, error) {
@@ -33,6 +34,7 @@ func (u *UseCase) Get(ctx context.Context, key string) (io.ReadCloser, error) {
 		return nil, fmt.Errorf("file repository get: %w", err)
 	}
 
+	verifhook.Point("uget.afterLookup")
 	cf, err := u.cfRepo.Get(ctx, f.ContentId)
 	if err != nil {
 		return nil, fmt.Errorf("content file repository get: %w", err)
